@@ -894,6 +894,90 @@ func scenarioList() []scenario {
 	return l
 }
 
+// pendingMatrix: the dimension "a request of the library is un-answered while the peer sends
+// something else".  For every local call that sends a request and waits for the peer's answer
+// (request helpers, iterators, receipts, muc join, history, ibb open / write / flush / close on
+// incoming and outgoing streams) and every peer stanza that touches state such a call may own
+// (ibb close / data / re-open of the same and of other sids, receipts, archive results, muc
+// presences, error stanzas, pushes, plain stanzas): the call is started, the harness waits
+// until its request is on the wire, the peer sends the stanza INSTEAD of the answer, and the
+// serve loop must stay alive (probe) - it is the only thing that can ever deliver the answer.
+// Then the peer does answer (an error, or results from then on), the call must return, the
+// input ends and Serve returns.  A handler that waits for anything the pending call holds (a
+// lock, a channel hand-over, the response slot) wedges here.
+func pendingMatrix() []scenario {
+	type pcall struct {
+		name    string
+		prelude []string
+		call    string   // the local call
+		request string   // text of its request on the wire
+		answer  []string // peer steps that let the call finish
+	}
+	inStream := []string{"call:ibbaccept", feed(ibbOpen("i1", "s1")), "wait:ibbaccept"}
+	outStream := []string{"call:ibbopen", await(`id="o1"`), feed(iq("result", "o1", "")), "wait:ibbopen"}
+	errAnswer := func(text string) []string { return []string{replyto(text, "error", errPayload)} }
+	okAnswer := func(text string) []string { return []string{auto(text, "result", "")} }
+	calls := []pcall{
+		{"uiq", nil, "uiq", `id="q1"`, errAnswer(`id="q1"`)},
+		{"roster", nil, "roster", `id="q2"`, []string{replyto(`id="q2"`, "result", rosterPayload)}},
+		{"pubsub", nil, "pubsub", `id="q3"`, []string{replyto(`id="q3"`, "result", pubsubPayload)}},
+		{"cmd", nil, "cmd", `id="q4"`, errAnswer(`id="q4"`)},
+		{"cmdexec", nil, "cmdexec", `id="q6"`, []string{replyto(`id="q6"`, "result", commandPayload)}},
+		{"disco", nil, "disco", `id="q5"`, []string{replyto(`id="q5"`, "result", itemsPayload)}},
+		{"rcpt", nil, "rcpt", `id="r1"`, []string{feed(receipt("r1"))}},
+		{"ibbopen", nil, "ibbopen", `id="o1"`, errAnswer(`id="o1"`)},
+		{"mucjoin", nil, "mucjoin", `to="room@conf.example/nick"`, []string{feed(mucPresence("room@conf.example/nick", "", true))}},
+		{"hist", nil, "hist", "hq1", errAnswer("hq1")},
+		{"ibbflush-in", inStream, "ibbwrite.in", "<data", errAnswer("<data")},
+		{"ibbflush-in-acked", inStream, "ibbwrite.in", "<data", okAnswer("<data")},
+		{"ibbflush-out", outStream, "ibbwrite.out", "<data", errAnswer("<data")},
+		{"ibbwrite-in", inStream, "ibbwriteraw.in-9000", "<data", errAnswer("<data")},
+		{"ibbwrite-out-acked", outStream, "ibbwriteraw.out-9000", "<data", okAnswer("<data")},
+		{"ibbclose-in", inStream, "ibbclose.in", "<close", errAnswer("<close")},
+		{"ibbclose-out", outStream, "ibbclose.out", "<close", []string{replyto("<close", "result", "")}},
+	}
+	type pstanza struct{ name, xml string }
+	errMsg := func(id string) string {
+		return `<message xmlns="jabber:client" type="error" id="` + id + `" from="example.net">` + errPayload + `</message>`
+	}
+	stanzas := []pstanza{
+		{"ibb-close", ibbClose("c1", "s1")},
+		{"ibb-close-other", ibbClose("c1", "zz")},
+		{"ibb-data", ibbData("d1", "s1", 0)},
+		{"ibb-data-seq1", ibbData("d1", "s1", 1)},
+		{"ibb-data-msg", ibbDataMsg("s1", 0)},
+		{"ibb-reopen", ibbOpen("i9", "s1")},
+		{"ibb-open-other", ibbOpen("i9", "s2")},
+		{"receipt", receipt("r1")},
+		{"receipt-unknown", receipt("nope")},
+		{"error-message", errMsg("r1")},
+		{"mam-result", mamResult("hq1")},
+		{"muc-self", mucPresence("room@conf.example/nick", "", true)},
+		{"muc-unavailable", mucPresence("room@conf.example/nick", "unavailable", true)},
+		{"muc-error", `<presence xmlns="jabber:client" from="room@conf.example/nick" type="error">` + errPayload + `</presence>`},
+		{"roster-push", iq("set", "rp1", `<query xmlns="jabber:iq:roster"><item jid="a@b"/></query>`)},
+		{"disco-info", iq("get", "di1", `<query xmlns="http://jabber.org/protocol/disco#info"/>`)},
+		{"version", iq("get", "v1", `<query xmlns="jabber:iq:version"/>`)},
+		{"plain", `<message xmlns="jabber:client" from="a@b/c" type="chat"><body>x</body></message>`},
+	}
+	var l []scenario
+	for _, pc := range calls {
+		for _, ps := range stanzas {
+			steps := append([]string(nil), pc.prelude...)
+			steps = append(steps, "call:"+pc.call, await(pc.request), feed(ps.xml), "probe")
+			steps = append(steps, pc.answer...)
+			// twice: the peer may repeat itself once the answer is under way; the second probe
+			// makes sure Serve has consumed the answer before the call's context is cancelled (a
+			// call that the peer's stanza has made unanswerable - a muc join whose occupant the
+			// room declared unavailable - returns only then; ibb's calls take no context and must
+			// return through the answer)
+			steps = append(steps, feed(ps.xml), "probe", "cancel:"+pc.call, "wait:"+pc.call)
+			l = append(l, sc("pending-"+pc.name+"-then-"+ps.name, steps...))
+		}
+	}
+	return l
+}
+
 func (c *ctx) scen(s scenario, class string) {
 	line := "scen " + s.name + " " + strings.Join(s.steps, ",")
 	if c.stalls["scen"] >= 6 || !c.begin(line) {
@@ -917,11 +1001,18 @@ func (c *ctx) scen(s scenario, class string) {
 // swapped with its neighbour, or its stanza mutated).
 func (c *ctx) scenarios() {
 	list := scenarioList()
+	matrix := pendingMatrix()
 	for _, s := range list {
 		if only := os.Getenv("C09_SCEN"); only != "" && only != s.name {
 			continue
 		}
 		c.scen(s, "scenario")
+	}
+	for _, s := range matrix {
+		if only := os.Getenv("C09_SCEN"); only != "" && only != s.name {
+			continue
+		}
+		c.scen(s, "scenario-pending")
 	}
 	if os.Getenv("C09_SCEN") != "" {
 		return
@@ -930,6 +1021,9 @@ func (c *ctx) scenarios() {
 	n := c.r.Pick(150, 1500)
 	for i := 0; i < n; i++ {
 		base := pick(rnd, list)
+		if rnd.Intn(4) == 0 {
+			base = pick(rnd, matrix)
+		}
 		if strings.HasPrefix(base.name, "hold-writes") {
 			// with the peer not reading, any inserted stanza whose handler answers would block by
 			// design: these scripts are not varied
